@@ -571,19 +571,27 @@ const _: () = {
 
         fn next_element_seed<T>(&mut self, seed: T) -> Result<Option<T::Value>, Self::Error>
         where T: serde::de::DeserializeSeed<'de> {
-            if self.section.is_empty() {
-                return Ok(None)
+            if self.first {
+                if self.section.is_empty() {
+                    return Ok(None)
+                }
+                self.first = false;
+            } else {
+                match self.section.split_first() {
+                    None               => return Ok(None),
+                    Some((b',', rest)) => self.section = rest,
+                    Some(_)            => return Err(serde::de::Error::custom("missing ,"))
+                }
             }
-            if !self.first && self.section.first() == Some(&b',') {
-                return Err(serde::de::Error::custom("missing ,"))
-            }
-            self.first = false;
 
             let size = self.section.iter().position(|b| b==&b',').unwrap_or(self.section.len());
             let (element, remaining) = self.section.split_at(size);
             self.section = remaining;
 
-            seed.deserialize(element.into_deserializer()).map(Some)
+            seed.deserialize(&mut URLEncodedDeserializer {
+                input: element,
+                side:  ParsingSide::Value,
+            }).map(Some)
         }
     }
 };
